@@ -206,6 +206,12 @@ func (e *EncryptedISO) ReadAt(b []byte, off int64) (int, error) {
 		}
 	}
 
+	// Underlying read that failed in the middle of a sector leaves a piece which can't be decrypted:
+	// it is not a part of result (sector cut by the end of file is another thing, it is there as a whole).
+	if err != nil && !errors.Is(err, io.EOF) {
+		read -= read % int(sectorSize)
+	}
+
 	e.clearRegionsData(start, buf[:read])
 	e.decryptData(start, buf[:read])
 
